@@ -86,15 +86,22 @@ def gen(item, rng, tier):
             addr = rng.choice([0, 0xFFFFFFFF, 0xFFFFFFFC, 0x100000000, rng.getrandbits(33)])
         addr = max(0, addr)
         size = rng.choice([1, 2, 4, 8])
-        path = rng.choice(['hub', 'hub', 'mem_a', 'insn'])
-        if path != 'hub':
+        path = rng.choice(['hub', 'hub', 'mem_a', 'insn', 'mem_u'])
+        if path == 'mem_u':
+            # the CPU's unaligned accessor: an unaligned halfword/word goes byte by byte, each byte with its own device lookup
+            size = rng.choice([2, 4])
+            if addr + size > 0x100000000:
+                path = 'hub'
+        elif path != 'hub':
             addr &= ~(size - 1)
             if addr > 0xFFFFFFFF:
                 path = 'hub'
         # unique, attributable write values
         val = ((i + 1) * 0x0101010101010101 ^ rng.getrandbits(64)) & ((1 << (8 * size)) - 1)
         ops.append({'op': rng.choice(['r', 'w', 'w']), 'path': path, 'addr': addr, 'size': size, 'value': val})
-        if path == 'insn' and size == 4 and addr + 16 <= 0x100000000 and rng.random() < 0.25:        # (address wrap inside LDM/STM is an instruction matter, C03)
+        if path in ('mem_a', 'mem_u') or (path == 'insn' and size in (2, 4)):
+            ops[-1]['be'] = int(rng.random() < 0.15)           # CPSR.E=1: the same bytes, most significant first
+        if path == 'insn' and size == 4 and not ops[-1].get('be') and addr + 16 <= 0x100000000 and rng.random() < 0.25:        # (address wrap inside LDM/STM is an instruction matter, C03)
             # LDM/STM r1,{r2..}: 2-4 consecutive word accesses, each with its own device lookup (may run across a device end or past 2^32)
             ops[-1]['multi'] = rng.randrange(2, 5)
             ops[-1]['value'] = ((i + 1) * 0x01010101010101010101010101010101 ^ rng.getrandbits(128)) & ((1 << (32 * ops[-1]['multi'])) - 1)
@@ -303,11 +310,14 @@ def run(case):
                         viol.append({'oracle': 'hub.model', 'site': 'hub:reuse', 'cls': 'descriptor_reuse_differs', 'tick': idx,
                                      'detail': 'second access through the same descriptor object at %#x size %d returned %#x, expected %#x' % (addr, size, again, want2)})
                         break
-            elif path == 'mem_a':
+            elif path in ('mem_a', 'mem_u'):
+                r.cpsr.e = op.get('be', 0)
+                getter, setter = (arm.mem_a_get, arm.mem_a_set) if path == 'mem_a' else (arm.mem_u_get, arm.mem_u_set)
                 if op['op'] == 'r':
-                    got = arm.mem_a_get(addr, size)
+                    got = getter(addr, size)
                 else:
-                    arm.mem_a_set(addr, size, op['value'])
+                    setter(addr, size, op['value'])
+                r.cpsr.e = 0
             else:
                 r.set(1, addr)
                 r.set(0, op['value'] & 0xFFFFFFFF)
@@ -329,7 +339,9 @@ def run(case):
                     w = A.ldsth('ldrh' if load else 'strh', 0, 1, 0)
                 code.memory_array[0:4] = w.to_bytes(4, 'little')
                 r.branch_to(CODE)
+                r.cpsr.e = op.get('be', 0)
                 arm.emulate_cycle()
+                r.cpsr.e = 0
                 ticks += 1
                 if r.cpsr.m != 0x13:
                     viol.append({'oracle': 'hub.model', 'site': 'insn:' + op['op'], 'cls': 'unexpected_exception', 'tick': idx,
@@ -346,7 +358,13 @@ def run(case):
             break
         ticks += 1
         # model step.  LDRD/STRD is two word accesses (each with its own device lookup); everything else is one access
-        parts = [(addr, size, op['value'], got)]
+        val_eff, got_eff = op['value'], got
+        if op.get('be'):
+            rev = lambda x: int.from_bytes((x & ((1 << (8 * size)) - 1)).to_bytes(size, 'big'), 'little')
+            val_eff, got_eff = rev(op['value']), (None if got is None else rev(got))
+        parts = [(addr, size, val_eff, got_eff)]
+        if path == 'mem_u' and addr % size:
+            parts = [(addr + q, 1, (val_eff >> (8 * q)) & 0xFF, None if got_eff is None else (got_eff >> (8 * q)) & 0xFF) for q in range(size)]
         if path == 'insn' and op.get('multi'):
             parts = [((addr + 4 * q) & 0xFFFFFFFF, 4, (op['value'] >> (32 * q)) & 0xFFFFFFFF, None if got is None else (got >> (32 * q)) & 0xFFFFFFFF) for q in range(op['multi'])]
         elif path == 'insn' and size == 8:
